@@ -6,7 +6,7 @@
    - Go string        : [bytes]
    - pb optional scalar (pointer) : option
    - common.Hash      : [bytes] of length 32 ([to_hash] = common.BytesToHash: crop from the left / left-pad)
-   - *common.Sign     : option of the 65 bytes Sign.Bytes() returns (r, s < 2^256 as produced by BytesToSign)
+   - *common.Sign     : option (r, s, recid) as integers; [sign_bytes] = Sign.Bytes() (r, s < 2^256)
    - time.Time        : the observable triple (internal seconds since year 1 as t.sec(), t.nsec(),
                         zone offset at that instant in seconds, None = the UTC location); wall/monotonic
                         encoding, location names and Local-vs-fixed zone are not observable through
@@ -49,7 +49,14 @@ Definition to_hash (b : bytes) : bytes :=
   if Nat.ltb 32 (List.length b) then lastn 32 b else repeat 0%N (32 - List.length b) ++ b.
 
 (* ---------- common.BytesToSign ---------- *)
-Definition to_sign (b : bytes) : option bytes := if Nat.eqb (List.length b) 65 then Some b else None.
+(* *common.Sign = (r, s, recid).  Sign.Bytes(): r and s big-endian, each copied RIGHT-aligned into its own 32-byte
+   word (left-padded with zeros), then the recid byte.  BytesToSign reads the two words back with SetBytes. *)
+Definition gsign := (N * N * N)%type.
+Definition pad32 (b : bytes) : bytes := repeat 0%N (32 - List.length b) ++ b.
+Definition sign_bytes (g : gsign) : bytes :=
+  let '(r, s, v) := g in pad32 (beb r) ++ pad32 (beb s) ++ [v].
+Definition to_sign (b : bytes) : option gsign :=
+  if Nat.eqb (List.length b) 65 then Some (bev (firstn 32 b), bev (firstn 32 (skipn 32 b)), nth 64 b 0%N) else None.
 
 (* ---------- time.Time MarshalBinary / UnmarshalBinary (Go 1.23) ---------- *)
 Record gtime := mk_time { t_sec : Z; t_nsec : Z; t_off : option Z }.
@@ -121,7 +128,7 @@ Record pb_tx := mk_pb_tx {
 
 Record tx := mk_tx {
   x_Source : bytes; x_Target : bytes; x_Type : Z; x_Time : bytes; x_Data : bytes; x_ExtraData : bytes;
-  x_ExtraDataType : Z; x_Sub : SubT; x_SubHash : bytes; x_Hash : bytes; x_Sign : option bytes;
+  x_ExtraDataType : Z; x_Sub : SubT; x_SubHash : bytes; x_Hash : bytes; x_Sign : option gsign;
   x_Nonce : N; x_RequestId : N; x_SocketRequestId : bytes; x_ChainId : bytes }.
 
 Definition zero_tx : tx := mk_tx [] [] 0 [] [] [] 0 sub_nil (to_hash []) (to_hash []) None 0 0 [] [].
@@ -131,7 +138,7 @@ Definition nonempty (b : bytes) : option bytes := match b with [] => None | _ =>
 (* transactionToPb (t != nil) *)
 Definition tx_to_pb (t : tx) : pb_tx :=
   mk_pb_tx (nonempty t.(x_Data)) (Some t.(x_Nonce)) (nonempty t.(x_Source)) (nonempty t.(x_Target)) (Some t.(x_Type))
-           (Some t.(x_Hash)) (Some t.(x_ExtraData)) (Some t.(x_ExtraDataType)) t.(x_Sign) (Some t.(x_Time))
+           (Some t.(x_Hash)) (Some t.(x_ExtraData)) (Some t.(x_ExtraDataType)) (option_map sign_bytes t.(x_Sign)) (Some t.(x_Time))
            (Some t.(x_RequestId)) None (Some (sub_enc t.(x_Sub))) (Some t.(x_SubHash)) (Some t.(x_ChainId)).
 
 Definition fT := "pbToTransaction"%string.
